@@ -3,7 +3,7 @@ Vocabulary of the statement-level translator `harness/progtx_stdp.py` (hand writ
 
 `progtx_stdp.py` regenerates, on every run, the WHOLE `forward` bodies of the STDP-family trainers
 (`inferno/learn/trainers/two_factor_stdp.py :: STDP, TripletSTDP`, `three_factor_stdp.py :: MSTDP, MSTDPET`)
-and the monitor wiring of `STDP.register_cell` as programs over the world below (`Gen/STDPProg.lean`).  Every
+and the monitor wiring of their `register_cell` / `_build_cell_state` as programs over the world below (`Gen/STDPProg.lean`).  Every
 Python / torch / einops primitive the bodies use is a function of this file named after the primitive; each is
 TOTAL and fails with the exception class the real primitive raises instead of defaulting.
 
@@ -244,35 +244,48 @@ def numel_bool (x : Batched α) : Bool := !x.isEmpty
 
 end
 
-/-! ### monitor wiring (`register_cell`): what `add_monitor` receives, as data -/
+/-! ### monitor wiring (`register_cell`, `_build_cell_state`): what `add_monitor` receives, as data -/
 
-/-- the reducer handed to `StateMonitor.partialconstructor(reducer=…)` -/
+/-- the reducer handed to `<Monitor>.partialconstructor(reducer=…)`; a duration is the Python value passed
+(`none`: `None`, which the reducer's constructor rejects) -/
 inductive ReducerSpec (α : Type) where
-  /-- `state.tracecls(step_time, time_constant, amplitude=…, target=…, duration=…, inclusive=…)` -/
-  | trace (step_time time_constant amplitude : α) (target : Bool) (duration : α) (inclusive : Bool)
-  /-- `PassthroughReducer(step_time, duration=…, inclusive=…)` -/
-  | passthrough (step_time duration : α) (inclusive : Bool)
+  /-- `state.tracecls(step_time, time_constant, amplitude=…, target=…, duration=…, inclusive=…[, inplace=…])`;
+  `cls` is the class `_build_cell_state` stored in `state.tracecls` -/
+  | trace (cls : String) (step_time time_constant amplitude : α) (target : Bool) (duration : Option α)
+      (inclusive : Bool) (inplace : Option Bool)
+  /-- `PassthroughReducer(step_time, duration=…, inclusive=…[, inplace=…])` -/
+  | passthrough (step_time : α) (duration : Option α) (inclusive : Bool) (inplace : Option Bool)
+  /-- `EligibilityTraceReducer(step_time, time_constant, obs_reshape=weakref.WeakMethod(cell.connection.<m>),
+  cond_reshape=weakref.WeakMethod(cell.connection.<m'>), duration=…, inclusive=…)` -/
+  | eligibility (step_time time_constant : α) (obs_reshape cond_reshape : String) (duration : Option α)
+      (inclusive : Bool)
 
-/-- one `self.add_monitor(name, <monitor>, <attr>, StateMonitor.partialconstructor(reducer=…, **monitor_kwargs),
-<unpooled>, **tags)` call -/
+/-- the value of a tag passed to `add_monitor(…, **tags)` -/
+inductive TagV (α : Type) where
+  | num (x : α)
+  | flag (b : Bool)
+  | str (s : String)
+
+/-- one `self.add_monitor(name, <monitor>, <attr>, <Monitor>.partialconstructor(reducer=…, …), <unique>, **tags)` call -/
 structure MonitorSpec (α : Type) where
   name : String
+  /-- dot-separated attribute monitored, relative to the cell -/
   attr : String
+  /-- `MultiStateMonitor` (else `StateMonitor`) -/
+  multi : Bool
+  /-- `subattrs=` of a `MultiStateMonitor` -/
+  subattrs : List String
   reducer : ReducerSpec α
   as_prehook : Bool
   train_update : Bool
   eval_update : Bool
   prepend : Bool
-  unpooled : Bool
-  /-- numeric tags (`dt`, `amp`, `tc`) -/
-  tags : List (String × α)
-  /-- the `delayed=` tag, if given -/
-  tag_delayed : Option Bool
-  /-- `trace=state.tracemode` given -/
-  tag_trace : Bool
+  /-- the `unique` argument (never aliased from the pool) -/
+  unique : Bool
+  tags : List (String × TagV α)
 
-/-- what `register_cell` reads: `cell.connection.dt`, `cell.connection.delayedby`, the state built by
-`_build_cell_state` -/
+/-- what `STDP` / `MSTDP` / `MSTDPET.register_cell` read: `cell.connection.dt`, `cell.connection.delayedby` and the
+state built by `_build_cell_state` (`tracecls`: the `__name__` of `state.tracecls`) -/
 structure RegEnv (α : Type) where
   dt : α
   delayedby : Option α
@@ -280,6 +293,32 @@ structure RegEnv (α : Type) where
   lr_pre : α
   tc_post : α
   tc_pre : α
+  tc_eligibility : α
   delayed : Bool
+  tracemode : String
+  tracecls : String
+
+/-- the same for `TripletSTDP.register_cell` -/
+structure TRegEnv (α : Type) where
+  dt : α
+  delayedby : Option α
+  lr_post_pair : α
+  lr_post_triplet : α
+  lr_pre_pair : α
+  lr_pre_triplet : α
+  tc_post_fast : α
+  tc_post_slow : α
+  tc_pre_fast : α
+  tc_pre_slow : α
+  delayed : Bool
+  tracemode : String
+  tracecls : String
+  inplace : Bool
+
+/-- `x + y` with `x : float | None` (`None + float`: `TypeError`) -/
+def opt_add {α : Type} [Add α] (x : Option α) (y : α) : Except Err α :=
+  match x with
+  | some x => pure (x + y)
+  | none => throw Err.TypeError
 
 end InfernoVerif.Gen.STDPPrelude
